@@ -106,6 +106,11 @@ func (s *solo) macroEmbargo() bool {
 	// the peer must have seen everything before it returns the capability
 	if !s.pumpUntil("peer sees the embargo-round calls", func() bool {
 		if a.pa == nil {
+			select {
+			case <-a.ans.Done():
+				return true // failed without reaching the wire: judged below
+			default:
+			}
 			return false
 		}
 		for _, ac := range early {
@@ -115,6 +120,11 @@ func (s *solo) macroEmbargo() bool {
 		}
 		return true
 	}) {
+		return true
+	}
+	if a.pa == nil {
+		// the call resolved (with an error) although the peer never saw it
+		s.resolveCall(a)
 		return true
 	}
 	s.peerReturn(a.pa)
@@ -289,12 +299,91 @@ func (s *solo) macroGenerationRace() bool {
 	q.plan = s.w.Plan(plan)
 	s.step("macro generation-race: release %s (import %d) while Call q%d uid=%x brings %d new descriptors", h.Label, pe.id, q.id, uid, copies)
 	first := s.rng.Bool()
+	// in half of the rounds the Shutdown of the released client is
+	// pre-empted at its entry (yield site 730, no lock held) until the
+	// burst below has been processed
+	var unhold func()
+	if s.rng.Bool() {
+		first = true
+		unhold = s.pol.Hold(730)
+		s.count("generation_race_holds", 1)
+	}
+	// waitRet: under a hold the steps are sequenced (each call has returned,
+	// i.e. its arguments were released, before the next descriptor is sent)
+	waitRet := func(x *peerQ) {
+		if unhold == nil {
+			return
+		}
+		s.await("Return of a generation-race call", func() bool {
+			s.pump()
+			if x.ret != nil {
+				return true
+			}
+			parked, _ := rpcbench.AllParked("common.(*Watch).WaitDone")
+			return parked && len(s.w.BlockedUIDs()) == 0
+		})
+	}
+	held0 := s.pol.Held()
+	var relDone int32
 	if first {
-		s.async("release "+h.Label, func() { s.w.ReleaseHandle(h) })
+		s.async("release "+h.Label, func() { s.w.ReleaseHandle(h); atomic.StoreInt32(&relDone, 1) })
+	}
+	if unhold != nil {
+		// the released client's Shutdown sits at the gate (or the release
+		// was not the last reference and finished, or some other goroutine
+		// took the gate and nothing moves any more)
+		s.await("release reaches the held Shutdown", func() bool {
+			s.pump()
+			if s.pol.Held() > held0 || atomic.LoadInt32(&relDone) == 1 {
+				return true
+			}
+			parked, _ := rpcbench.AllParked("common.(*Watch).WaitDone")
+			return parked && len(s.w.BlockedUIDs()) == 0
+		})
+	}
+	if s.pexp[pe.id] != pe {
+		// a Release pumped meanwhile ended this export's lifetime in the
+		// peer's table: its id must not be named any more
+		if unhold != nil {
+			unhold()
+		}
+		s.w.MarkConsumed(uid)
+		s.quiesce("after generation race (export gone)")
+		return true
 	}
 	s.sendPeerCall(q, &c)
+	waitRet(q)
 	if !first {
 		s.async("release "+h.Label, func() { s.w.ReleaseHandle(h) })
+	}
+	// a burst of further descriptors for the same import: each call's
+	// arguments are released when its implementation returns, so the import
+	// entry is dropped and re-created several times while the Shutdown of
+	// the first client may still be pending (generation ABA, fixed 7b2b8f7)
+	n := s.rng.Intn(4)
+	if unhold != nil && n == 0 {
+		n = 1 + s.rng.Intn(2)
+	}
+	for k := 0; k < n && s.pexp[pe.id] == pe; k++ {
+		u := s.newUID()
+		cc := rpcbench.NewContent(u)
+		cc.Slots[1] = 0
+		cc.Caps = []rpcbench.WDesc{{Kind: "senderHosted", ID: pe.id}}
+		qq := &peerQ{id: s.allocQID(), uid: u, class: "direct", expectLC: ce.local,
+			target: &rpcbench.WTarget{Kind: "importedCap", Cap: ce.id}}
+		qq.stream, qq.seq = s.peerStream(qq.target.RefKey() + fmt.Sprintf("@%d", ce.gen))
+		cc.Stream, cc.Seq = qq.stream, qq.seq
+		pl := &rpcbench.CallPlan{UID: u, Behaviour: s.rng.Intn(2)}
+		if k == n-1 && (unhold != nil || s.rng.Bool()) {
+			pl.TakeArgs = []int{1} // keep the last one: a live client on the newest entry
+		}
+		qq.plan = s.w.Plan(pl)
+		s.sendPeerCall(qq, &cc)
+		waitRet(qq)
+		s.count("generation_race_burst_calls", 1)
+	}
+	if unhold != nil {
+		unhold()
 	}
 	s.count("generation_races", 1)
 	s.quiesce("after generation race")
